@@ -23,6 +23,7 @@ CLAIMS = {
     "C11": ("Theorems over the LTS: traces are prefixes of the full trace in every reachable state, Trace from wait_timeout implies every chain recorded exactly total draws, zero-draw runs record nothing, chains are never stuck outside the documented blocking receive, controller sends and user returns are enabled (calls return). Tie: replay of real event histories with user scripts (pause/resume/progress/flush/inspect/wait/abort), watchdog for hangs, counter audits. Two genuine defects repaired. Partial: liveness is enabledness of the modelled events, not a fairness proof.", "3 C11"),
     "C12": ("Theorems over the LTS: after pause() returns a chain records at most (queued Resume messages + 1) further draws until the next command, at most one with mailbox [Pause]; blocked chains record nothing until a Resume is sent; a chain that finds Pause first does not draw; resume loses nothing (records contiguous). Tie: replay of event histories with a chain parked at a chosen schedule point when pause() is issued.", "3 C12"),
     "C13": ("Theorems over the LTS: one result per finished chain, after any chain failure wait_timeout can never return Trace, abort() returns Ok((None,_)) only if no chain failed, returns answer the pending call, healthy chains unaffected. Tie: replay of event histories with injected faults (unrecoverable logp error at any evaluation, expand failure, model construction failure, all initial points bad). Three genuine defects repaired; one recorded known finding (unrecoverable error during a chain's initialisation is retried).", "3 C13"),
+    "C14": ("Theorems over model/Storage.v: for ALL well-formed schemas and recording histories (any lengths incl. 0 and 1, every prefix = aborted runs / inspect, any event pattern, both store_warmup settings) the models of the HashMap, Arrow, CSV, Zarr (sync/async, every chunk size) and ndarray backends succeed and return exactly the expected values in recording order, warmup before sampling, with declared type and list-ness, nulls / absences exactly where no value was recorded; store_warmup=false drops exactly the warmup records; the backends agree with each other (CSV on its numeric columns). Refutation theorems with witnesses for the five recorded known findings (ndarray: matrices, dense event statistics; Zarr: store_warmup ignored, string vectors, event padding across chains) and for the repaired ndarray defects. Tie: correspondence of every backend model with the real backends driven by real chains of all six presets (logging wrapper around the storage traits, complete read-back: HashMap/Arrow/ndarray objects, CSV files re-parsed, Zarr stores re-opened), plus an oracle computed from the recorded history alone. Partial: CSV number formatting, Arrow/zarrs/ndarray internals trusted.", "3 C14"),
     "C15": ("Theorems over model/Zarr.v (chunk buffer, phase transition, write queue with completions at any time and in any order, flush, finalize, event-array resizing): after every flush and after finalize every array of both groups reads back every row recorded so far (C15_flush_complete / _finalize_complete / _final_shape_covers), rows flushed once stay readable whatever follows (every later state is a crash point, C15_flush_stable), queued writes address pairwise distinct chunks so the async store equals the sync store for every completion order (C15_pending_distinct / _async_confluent), buffer invariant (the push assert never fires); refutation witnesses for the two repaired defects. Tie: correspondence with the real ZarrChainStorage / ZarrAsyncChainStorage (memory and filesystem stores, fresh zarrs reader per snapshot, seeded store latencies) plus an implementation-side oracle from the property text. Partial: chunk writes of the store are assumed atomic (FilesystemStore rewrites in place), queue timing over-approximated.", "3 C15"),
     "C16": ("Theorems for ALL struct declarations of the derive(Storable) model (first-matching-arm semantics, names/get_all alignment under NoDup and no flattened Option, refutations for the excluded cases), macro table equal to the one extracted from the current nuts-derive source, the six regenerated preset declarations well formed, presence rules (event-only, identifying fields, all-or-none, update reported once). Tie: translator regenerating the declarations from /repo on every run + schema/rows/presence correspondence over 576 preset x flag x dimension cases. One genuine defect repaired (duplicate tuning statistic).", "3 C16"),
     "C17": ("Theorems over the lane-generic kernel model: index partition for every length and lane count, element-wise kernels equal the plain formula over Q for every lane count, reductions equal the plain sums for every power-of-two lane count (1,2,4,8) fused or not, finiteness tests, NaN propagation on binary64; bit-exact correspondence of the binary64 instance with CpuMath for every length 0..=130 on this host's instruction set. Partial: the floating-point error bound itself is not proved, only the association order is pinned.", "3 C17"),
